@@ -520,6 +520,31 @@ def clientMsg (method path host : Bytes) (port : Nat) (hasPort : Bool) (h : Dic)
   let title := if hasPort then title ++ [58] ++ utoa port else title
   { command := title, headers := h, body := body }
 
+/-- `Http::request` for a request whose last transfer coding is `chunked` (after a376a88): no Content-Length, the body in
+chunks of the send block, then the last chunk -/
+def clientChunkedHeaders (h : Dic) : Dic := setHeader h sContentLength []
+
+def clientCommand (method path host : Bytes) (port : Nat) : Bytes :=
+  method ++ [32] ++ path ++ [32] ++ sHttp11 ++ crlf ++ [72, 111, 115, 116, 58, 32] ++ host ++ [58] ++ utoa port
+
+/-- what the client puts on the wire for an in-memory body: chunk-framed when the headers ask for it, by length otherwise -/
+def clientSend (method path host : Bytes) (port : Nat) (h : Dic) (body : Bytes) : Dic × Bytes :=
+  if teChunked (header h sTransferEncoding) then
+    let h' := clientChunkedHeaders h
+    (h', headerBlock (clientCommand method path host port) h' ++ writeBody (isChunked h') sendBlock body ++ lastChunk)
+  else
+    let m := clientMsg method path host port true h body
+    (m.headers, serialize m)
+
+/-- the same for a file body (`putFile` / `writeFile`: 16000-byte reads) -/
+def clientSendFile (method path host : Bytes) (port : Nat) (h : Dic) (content : Bytes) : Dic × Bytes :=
+  if teChunked (header h sTransferEncoding) then
+    let h' := clientChunkedHeaders h
+    (h', headerBlock (clientCommand method path host port) h' ++ writeFile (isChunked h') sendBlock recvBlock content ++ lastChunk)
+  else
+    let h' := setHeader h sContentLength (utoa content.length)
+    (h', headerBlock (clientCommand method path host port) h' ++ writeFile (isChunked h') sendBlock recvBlock content)
+
 /-! ## `HttpResponse::setCode`, `HttpServer::serve(Socket)` post-processing, `putFile` -/
 
 def codeMsg (code : Nat) : Bytes :=
@@ -542,6 +567,27 @@ def rangeOf (n : Nat) (b e : Int) : Option (Nat × Nat) :=
 /-- bytes `writeFile(path, begin, end)` reads from the file -/
 def fileSlice (content : Bytes) (b e : Nat) : Bytes :=
   if b ≠ e ∨ b > 0 then (content.drop b).take (e - b + 1) else content.drop b
+
+/-- `bytes=-k` on a file of `n` bytes: the arguments `serve()` gives to `putFile` (the last `k` bytes, all of the file when
+it is shorter; nothing asked for or nothing there: an empty, unsatisfiable range) -/
+def suffixRange (n k : Nat) : Int × Int :=
+  (if k ≥ n then 0 else (n : Int) - k, if k = 0 ∨ n = 0 then -1 else (n : Int) - 1)
+
+/-- a position that does not fit an `int` is beyond any file served: clamped, not taken modulo 2^32 -/
+def clampPos (v : Nat) : Int := if v > 2147483647 then 2147483647 else v
+
+/-- the `Range` header text after `bytes=` → `putFile`'s (begin, end); `end = 0` stands for "to the end" -/
+def rangeArgs (n : Nat) (spec : Bytes) : Int × Int :=
+  let parts := splitByte 45 spec
+  let first := match parts with
+    | x :: _ => atoi x
+    | [] => 0
+  let last := match parts with
+    | _ :: y :: _ => atoi y
+    | _ => 0
+  match parts with
+  | x :: _ :: _ => if x.isEmpty then suffixRange n last else (clampPos first, clampPos last)
+  | _ => (clampPos first, clampPos last)
 
 def contentRangeText (b e n : Nat) : Bytes :=
   [98, 121, 116, 101, 115, 32] ++ utoa b ++ [45] ++ utoa e ++ [47] ++ utoa n
@@ -692,13 +738,7 @@ def serveOne (blk rblk : Nat) (optionsDefault : Bool) (q : Request) (p : Plan) (
       if hasHeader q.headers sRange then
         let range := header q.headers sRange
         if startsWith range sBytesEq ∧ ¬ range.contains 44 then
-          let parts := splitByte 45 (range.drop 6)
-          let b : Int := match parts with
-            | x :: _ => if isNeg x then - (atoi (x.drop 1) : Int) else (atoi x : Int)
-            | [] => 0
-          let e : Int := match parts with
-            | _ :: y :: _ => if isNeg y then - (atoi (y.drop 1) : Int) else (atoi y : Int)
-            | _ => 0
+          let (b, e) := rangeArgs n (range.drop 6)
           match rangeOf n b e with
           | some (b', e') =>
             let h := setHeader h sContentLength (utoa (e' - b' + 1))
